@@ -84,18 +84,51 @@ type failRec struct {
 }
 
 type workerMsg struct {
-	Type     string   `json:"type"` // fail | stats | hang | sample
-	Fail     *failRec `json:"fail,omitempty"`
-	Exec     int64    `json:"exec,omitempty"`
-	Eval     int64    `json:"eval,omitempty"`
-	CP       int64    `json:"cp,omitempty"`
-	NonTriv  int64    `json:"nontriv,omitempty"`
-	Outcomes []string `json:"outcomes,omitempty"`
-	Sample   *Sample  `json:"sample,omitempty"`
-	Stopped  bool     `json:"stopped,omitempty"`
-	Devs     string   `json:"devs,omitempty"`
-	Func     string   `json:"func,omitempty"`
-	Dump     string   `json:"dump,omitempty"`
+	Type     string              `json:"type"` // fail | stats | hang | sample
+	Fail     *failRec            `json:"fail,omitempty"`
+	Exec     int64               `json:"exec,omitempty"`
+	Eval     int64               `json:"eval,omitempty"`
+	CP       int64               `json:"cp,omitempty"`
+	NonTriv  int64               `json:"nontriv,omitempty"`
+	Outcomes []string            `json:"outcomes,omitempty"`
+	Sample   *Sample             `json:"sample,omitempty"`
+	Stopped  bool                `json:"stopped,omitempty"`
+	Devs     string              `json:"devs,omitempty"`
+	Func     string              `json:"func,omitempty"`
+	Dump     string              `json:"dump,omitempty"`
+	Gauges   map[string]GaugeVal `json:"gauges,omitempty"`
+}
+
+// GaugeVal is the largest value reported for a named quantity, and where.
+type GaugeVal struct {
+	V  float64 `json:"v"`
+	At string  `json:"at"`
+}
+
+var (
+	gaugeMu sync.Mutex
+	gauges  = map[string]GaugeVal{}
+)
+
+// Gauge records the maximum of a named quantity over all executions, in whichever
+// process they run: worker processes send their maxima with their statistics.
+func Gauge(name string, v float64, at func() string) {
+	gaugeMu.Lock()
+	if g, ok := gauges[name]; !ok || v > g.V {
+		gauges[name] = GaugeVal{v, at()}
+	}
+	gaugeMu.Unlock()
+}
+
+// Gauges returns a copy of the maxima recorded so far.
+func Gauges() map[string]GaugeVal {
+	gaugeMu.Lock()
+	defer gaugeMu.Unlock()
+	out := map[string]GaugeVal{}
+	for k, v := range gauges {
+		out[k] = v
+	}
+	return out
 }
 
 // Sample is an actual explored case written to the evidence.
@@ -619,7 +652,7 @@ func WorkerMain(chk *Check, tier string, args []string) int {
 	if p := os.Getenv("VCHECK_BITMAP"); p != "" {
 		writeBitmap(p, bm)
 	}
-	send(workerMsg{Type: "stats", Exec: agg.exec, Eval: agg.eval, CP: agg.cp, NonTriv: agg.nontriv, Outcomes: outs, Stopped: agg.stopped})
+	send(workerMsg{Type: "stats", Exec: agg.exec, Eval: agg.eval, CP: agg.cp, NonTriv: agg.nontriv, Outcomes: outs, Stopped: agg.stopped, Gauges: Gauges()})
 	return 0
 }
 
@@ -823,6 +856,10 @@ func (r *Runner) runWorker(sp *Space, lvl, i, k int, resume, tmp string) workerR
 		case "stats":
 			res.exec, res.eval, res.cp, res.nontriv, res.outs, res.stopped = m.Exec, m.Eval, m.CP, m.NonTriv, m.Outcomes, m.Stopped
 			res.done = true
+			for k, g := range m.Gauges {
+				g := g
+				Gauge(k, g.V, func() string { return g.At })
+			}
 		case "hang":
 			res.hang = true
 			res.culprit = m.Devs
